@@ -209,3 +209,92 @@ Theorem C08_security_parameters_hypotheses_satisfiable :
     = Val [Val []; Val [JStr (S "token")]; Val []; Val [JStr (S "api_key")]].
 Proof. exact security_clash_witness. Qed.
 Print Assumptions C08_security_parameters_hypotheses_satisfiable.
+
+(* ---- JSON-pointer escaping of path keys (after the seeded regression C08_d) ----
+   RFC 6901: the token decoding get_operation_by_reference and the link statistic apply (~1 first, then ~0) inverts
+   the encoding APIOperation.operation_reference applies (~ first, then /), for EVERY string. *)
+Theorem C08_pointer_roundtrip : forall p, unescape (escape_pointer p) = p.
+Proof. exact pointer_roundtrip. Qed.
+Print Assumptions C08_pointer_roundtrip.
+
+(* ... hence the (path, method) derived from operation_reference is the operation's own, for ALL path strings (tildes,
+   slashes, ~0 / ~1 / ~01 / ~10 / ~~1, percent signs, the empty path) and every method key without a slash, and two
+   operations never share a reference *)
+Theorem C08_reference_roundtrip : forall p m, ~ In 47%N m -> m <> [] ->
+  path_of_reference (reference_of p m) = Some (p, m) /\
+  forall q n, ~ In 47%N n -> n <> [] -> reference_of p m = reference_of q n -> p = q /\ m = n.
+Proof.
+  intros p m Hm Hne. split; [exact (reference_roundtrip p m Hm Hne)|].
+  intros q n Hn Hnn E. exact (reference_of_inj p m q n Hm Hne E Hn Hnn).
+Qed.
+Print Assumptions C08_reference_roundtrip.
+
+(* the sentinel: the same two substitutions in the other order (~0 first).  The token ~01 - a literal ~1 in the path -
+   becomes a slash, and the references of /a/v~1 and /a/v/ are decoded to ONE path *)
+Theorem C08_pointer_roundtrip_wrong_order_refuted : exists p q m,
+  unescape_wrong (escape_pointer (S "~1")) = S "/" /\ unescape_wrong (escape_pointer (S "~1")) <> S "~1" /\
+  p <> q /\
+  path_of_url unescape_wrong (reference_of p m) = Some (q, m) /\
+  path_of_url unescape_wrong (reference_of q m) = Some (q, m) /\
+  path_of_url unescape (reference_of p m) = Some (p, m).
+Proof. exists (S "/a/v~1"), (S "/a/v/"), (S "get"). exact pointer_roundtrip_wrong_order_refuted. Qed.
+Print Assumptions C08_pointer_roundtrip_wrong_order_refuted.
+
+(* For every document and every plain entry (an inline path item under a non-empty key without percent sign, a method key
+   present as written): the lookup by operation_reference and the lookup by path and method address the SAME cache entry
+   (root scope, that path, that method) and build the same operation (everything but the recorded scope); on fresh schema
+   objects they return the same thing (a KeyError of the build is reported as LookupError by MethodMap.__getitem__). *)
+Theorem C08_reference_lookup_is_path_lookup_partial : forall v doc p m,
+  plain_entry doc p m = true ->
+  (exists kvs opj b1 b2,
+     pgo v doc (AByRef (reference_of p m)) = Some (([], p, m), b1, (fun _ => None), Some (reference_of p m)) /\
+     pgo v doc (AGet p m) = Some (([], p, m), b2, id_of_resolved, None) /\
+     b2 = build_by_path v doc p m [] kvs opj /\ res_core b1 = res_core b2) /\
+  (self_ok v doc (AGet p m) = true ->
+   to_lookup_error (res_core (fresh_op v doc (AByRef (reference_of p m)))) = res_core (fresh_op v doc (AGet p m))) /\
+  operation_ref_target doc (JStr (reference_of p m)) = Some (m, p).
+Proof.
+  intros v doc p m H. split; [|split].
+  - destruct (plain_entry_spec doc p m H) as [kvs [opj P]].
+    destruct (plain_plans v doc p m kvs opj P) as [Pr [Pg E]].
+    exists kvs, opj. do 2 eexists. split; [exact Pr|]. split; [exact Pg|]. split; [reflexivity | exact E].
+  - exact (reference_lookup_is_path_lookup v doc p m H).
+  - exact (operation_ref_target_own doc p m H).
+Qed.
+Print Assumptions C08_reference_lookup_is_path_lookup_partial.
+
+(* ... and in EVERY sequence of lookups by (path, method) and by operation_reference of plain entries (any order, any
+   number, any mix of paths - also paths that a wrong token decoding would confuse), on one schema object, each lookup
+   returns what it returns on a fresh schema object: the coherence hypothesis of C08_cache_refines_fresh_partial is
+   discharged syntactically for these accesses. *)
+Theorem C08_reference_and_path_lookups_any_order_partial : forall v doc accs,
+  forallb (plain_access doc) accs = true -> forallb (self_ok v doc) accs = true ->
+  coherent v doc accs = true /\
+  map result_core (run v doc empty_cache accs) = map (fun a => result_core (fresh v doc a)) accs.
+Proof.
+  intros v doc accs HP HS. split; [exact (plain_coherent v doc accs HP HS) | exact (plain_lookups_refine_fresh v doc accs HP HS)].
+Qed.
+Print Assumptions C08_reference_and_path_lookups_any_order_partial.
+
+(* non-vacuity: /a/v/ and /a/v~1 in one document, looked up by path and by reference in a mixed order *)
+Theorem C08_reference_lookups_hypotheses_satisfiable :
+  forallb (plain_access doc_tilde) accs_tilde = true /\ forallb (self_ok V30 doc_tilde) accs_tilde = true /\
+  reference_of (S "/a/v~1") m_get' = S "#/paths/~1a~1v~01/get" /\
+  exists o, nth_error (run V30 doc_tilde empty_cache accs_tilde) 1 = Some (ROp (Val o)) /\
+            o_path o = S "/a/v~1" /\ o_raw o = op_with (S "getShortName") (S "token") s_header /\ List.length (o_headers o) = 1%nat.
+Proof. exact plain_lookups_nonvacuous. Qed.
+Print Assumptions C08_reference_lookups_hypotheses_satisfiable.
+
+(* the region is needed: operation_reference does not escape percent signs and the resolver unquotes the fragment before
+   splitting it.  With /a%7Eb and /a~b in one document the lookup by the reference of /a%7Eb silently returns the
+   definition of /a~b under the path /a%7Eb; the reference of /a%2Fb does not resolve at all. *)
+Theorem C08_reference_lookup_percent_refuted : exists doc p p2 m,
+  plain_entry doc p m = false /\ mem 37 p = true /\
+  (exists o o', fresh V30 doc (AByRef (reference_of p m)) = ROp (Val o) /\
+                fresh V30 doc (AGet p m) = ROp (Val o') /\
+                o_path o = p /\ o_raw o = op_with (S "two") (S "y") s_query /\
+                o_raw o' = op_with (S "one") (S "x") s_query /\ o_raw o <> o_raw o') /\
+  fresh V30 doc (AByRef (reference_of p2 m)) = ROp (Raise ERef) /\
+  (exists o', fresh V30 doc (AGet p2 m) = ROp (Val o')).
+Proof. exists doc_pct, (S "/a%7Eb"), (S "/a%2Fb"), m_get'. exact reference_lookup_percent_refuted. Qed.
+Print Assumptions C08_reference_lookup_percent_refuted.
